@@ -609,7 +609,9 @@ def misaligned_index_keys(R, bodies):
                 continue
             idx = ("field", p.elem, p.index_component)
             for i, t in b.calls():
-                if i not in bl or parse_callee(t["callee"])[2] not in KEYED_METHODS:
+                # as a key / position of a std container, or handed to a workspace function (`ledger.add_acquisition(idx, ..)`
+                # stores it as the lot's transaction index)
+                if i not in bl or not (parse_callee(t["callee"])[2] in KEYED_METHODS or t["callee"] in R.F.bodies):
                     continue
                 for a in t["args"][1:]:
                     term = tb.operand(a)
